@@ -2,7 +2,7 @@
 from lib import hexs
 
 MODULE = "DtailModel.Props.C05"
-GROUPS = ["C05", "C11", "GEN"]
+GROUPS = ["C05", "C11", "GEN", "C15"]
 LOGGER = "none"
 BUDGET = {"quick": 1500, "thorough": 40000}
 LEVEL_TEXT = ("Lean theorems: per operation the partial aggregates form a monoid under the merge, per-line aggregation is a "
@@ -80,11 +80,18 @@ def _gen_hand(rng, budget, tier):
         yield f"c05.agg {hexs(q.encode())} {fmt} {enc}"
 
 
+from props import c15 as _c15
+
+
 def model_case(case, impl):
+    if case.startswith("c15.write"):
+        return _c15.model_case(case, impl)
     return case
 
 
 def impl_view(case, impl):
+    if case.startswith("c15.write"):
+        return _c15.impl_view(case, impl)
     return impl.split("#", 1)[0]
 
 
@@ -93,8 +100,23 @@ def gen(rng, budget, tier):
     from props import gen_tie
     yield from gen_tie.gen_agg(rng, 400 if tier == "quick" else 20000)
     yield from _gen_hand(rng, budget, tier)
+    # the final result is what the outfile holds: interim report, then a (shorter) final one over a stale staging file;
+    # the write path of internal/mapr/groupsetresult.go under strace, as in the C15 check (no kill cases here)
+    import random
+    sub = random.Random(rng.getrandbits(32))
+    n = 0
+    for c in _c15.gen(sub, 400, tier):
+        f = c.split(" ")
+        if len(f) == 6 and f[5] == "0" and f[3] == "1" and "/" in f[4]:
+            yield c
+            n += 1
+            if n >= (10 if tier == "quick" else 200):
+                break
 
 
 from props import gen_tie as _gt
 CANON = dict(globals().get("CANON", {}))
 CANON["gen.agg"] = _gt.canon_agg
+CANON["c15.write"] = _c15.CANON["c15.write"]
+PROJ = dict(globals().get("PROJ", {}))
+PROJ["c15.write"] = _c15.PROJ["c15.write"]
